@@ -51,6 +51,7 @@ class TRSpec(object):
     """hook object handed to the executor for one unit run"""
 
     def __init__(self, repo):
+        self.envelopes_direct = False      # set by the input-wrapper units: entries read through get_data_direct are envelope dicts too
         self.repo = repo
         self.selfv = None
         self.maybe_roles = {}      # term id -> Role   (parameters that are callables only on some paths)
@@ -100,7 +101,7 @@ class TRSpec(object):
         st.push(fr, None, (m.name, cls, node))
         st.g['old'] = dict(dmap=st.g['dmap'], ddom=st.g['ddom'], seq=st.g['seq'], active=st.rd(selfv, '_active_recording'),
                            pbout=st.seq(st.rd(selfv, '_playback_outputs')), counter=st.rd(selfv, '_invoke_counter'), opflag=st.g[OPFLAG],
-                           pb=st.rd(selfv, '_playback_recording'))
+                           pb=st.rd(selfv, '_playback_recording'), params=(st.rd(selfv, '_active_recording_parameters') if mode == 'recording' else None))
         self.fr = fr
         return st, selfv, fr, node, info
 
@@ -381,6 +382,12 @@ class TRSpec(object):
         if sH is not None:
             orig = sH.dget(rec, k)
             if direct:
+                if self.envelopes_direct:
+                    # the entry itself (no copy): still an envelope dict (class invariant of recordings written by the recorder)
+                    sH.assume(z3.And(Val.is_ref(orig), Val.addr(orig) < BASE, TYP(Val.addr(orig)) == K('dict'))); sH.note(orig, 'dict')
+                    ev_ = sH.dget(orig, S('exception'))
+                    sH.assume(z3.Or(z3.And(sH.dhas(orig, S('exception')), Val.is_ref(ev_), sub(TYP(Val.addr(ev_)), K('BaseException'))),
+                                    z3.And(z3.Not(sH.dhas(orig, S('exception'))), sH.dhas(orig, S('value')))))
                 sH.g['notes'].append(('get_data_direct', rec, k, orig)); outs.append((sH, ('val', orig))); return outs
             # recorded entries are envelope dicts written by the recorder ({'value': v} | {'exception': e}) -- class invariant of recordings
             sH.assume(z3.And(Val.is_ref(orig), Val.addr(orig) < BASE, TYP(Val.addr(orig)) == K('dict')))
@@ -454,6 +461,7 @@ class TRSpec(object):
     def c_pickle_copy(self, ex, st, args, kw, node, star, dstar):
         lib.used('A1 pickle_copy(v) = decode(encode(v)): a structurally equal value in freshly allocated objects, or an ordinary exception')
         s2 = st.copy(); c = fresh('copy'); st.assume(c == CP(args[0])); st.g['notes'].append(('copy', c, args[0]))
+        s2.g['notes'].append(('copy_failed', args[0]))
         return [(st, ('val', c)), (s2, ('exc', s2.sym_exc(ordinary=True, label='exc_copy')))]
 
     def c_extract(self, ex, st, args, kw, node, star, dstar):
